@@ -568,6 +568,125 @@ def stage_replay(ctx, rng, gcat, gmodel, consts):
     return {"violations": viol, "known": known, "n": n, "samples": samples}
 
 
+
+# ---------------------------------------------------------------- B: bulk appends, full content
+BULK_BS = [1, 100, 2048, 2049, 4096, 4097, 8192]
+BULK_SRC = ["gs", "tbl", "ctas", "join"]
+
+
+def rle(ids):
+    """sorted multiset of ints -> 'lo-hi*mult,...' (the model driver's coding)"""
+    ids = sorted(ids)
+    groups = []
+    for x in ids:
+        if groups and groups[-1][0] == x:
+            groups[-1][1] += 1
+        else:
+            groups.append([x, 1])
+    runs = []
+    for x, m in groups:
+        if runs and runs[-1][1] + 1 == x and runs[-1][2] == m:
+            runs[-1][1] = x
+        else:
+            runs.append([x, x, m])
+    return ",".join("%d-%d*%d" % (lo, hi, m) for lo, hi, m in runs)
+
+
+def unrle(text):
+    out = []
+    for part in text.split(","):
+        if not part:
+            continue
+        rng_, m = part.split("*")
+        lo, hi = rng_.lstrip("-").split("-") if not rng_.startswith("-") else (None, None)
+        for x in range(int(lo), int(hi) + 1):
+            out += [x] * int(m)
+    return out
+
+
+def stage_bulk(ctx, rng, gcat, gmodel, consts):
+    """INSERT / CTAS of many rows under batch sizes around and above the chunk capacity: the table's full content
+    (aggregates and the exact sorted rows) against the extracted chunk-level model (Storage.bulk)."""
+    tier = ctx["tier"]
+    segsz, cap = consts.get("segment_size"), consts.get("chunk_capacity")
+    if not segsz or not cap:
+        return {"violations": [], "n": 0, "rows": 0, "samples": []}
+    ks = [0, 2 * cap, cap + 1, cap - 1]          # k mod chunk capacity in {0, 0, 1, cap-1}
+    combos = []
+    for bi, bs in enumerate(BULK_BS):
+        for si, src in enumerate(BULK_SRC):
+            if tier == "quick":
+                kk = [ks[(bi + si + ctx["seed"]) % 4]]
+            else:
+                kk = ks
+            for k in kk:
+                combos.append((bs, src, 0 if src == "ctas" else k))
+    cases, meta = [], []
+    for bs, src, k in combos:
+        n = (2 * cap + 104) if bs == 1 else (4 * cap + 1808)      # spans >= 3 chunks; one batch of 8192 spans 4
+        parts = 1 if (bs + len(src) + k) % 3 else 4
+        st = []
+        if src in ("tbl", "join"):
+            st.append("create temp table src as select a, a * 3 + 1 as b from generate_series(1, %d) g(a)" % n)
+        if src == "join":
+            st.append("create temp table src2 as select a, a * 3 + 1 as b from generate_series(1, %d) g(a)" % n)
+        if src != "ctas":
+            st.append("create temp table t (a bigint, b bigint)")
+            if k:
+                st.append("insert into t select -a, -a * 3 from generate_series(1, %d) g(a)" % k)
+        st.append("set partitions to %d" % parts)
+        st.append("set batch_size to %d" % bs)
+        q = {"gs": "insert into t select a, a * 3 + 1 from generate_series(1, %d) g(a)" % n,
+             "tbl": "insert into t select * from src",
+             "ctas": "create temp table t as select a, a * 3 + 1 as b from generate_series(1, %d) g(a)" % n,
+             "join": "insert into t select l.a, r.b from src l inner join src2 r on l.a = r.a"}[src]
+        st.append(q)
+        st.append("reset batch_size")
+        st.append("select count(*), sum(a), min(a), max(a), count(distinct a), sum(b) from t")
+        st.append("select a, b from t order by a")
+        cases.append({"id": "bulk-%d-%s-%d" % (bs, src, k), "mode": "det", "partitions": 1, "sessions": 1, "timeout_s": 120,
+                      "sched": {"kind": rng.choice(["fifo", "lifo", "random"]), "seed": rng.below(1 << 20)}, "stmts": [[0, x] for x in st]})
+        meta.append((bs, src, k, n, parts, q))
+    real = common.run_harness(gcat, [], cases, timeout=1500)
+    mout = run_model_big(gmodel, "storage", ["(bulk t %d %d %d %d %d)" % (segsz, cap, k, n, bs) for bs, src, k, n, parts, q in meta])
+    viol, nrows, samples = [], 0, []
+    for case, (bs, src, k, n, parts, q), r, m in zip(cases, meta, real, mout):
+        stm = [x[1] for x in case["stmts"]]
+        cfgd = {"batch_size": bs, "source": src, "rows_before": k, "rows_appended": n, "partitions": parts, "sched": case["sched"]}
+        res = r.get("results") or []
+        mm = re.match(r"count (\d+) rows (.*)$", m)
+        if len(res) < len(stm) or any(not x.get("ok") for x in res) or not mm:
+            bad = [(s_, x.get("err", x.get("panic", x.get("hang")))) for s_, x in zip(stm, res) if not x.get("ok")][:1]
+            viol.append({"kind": "bulk append did not run", "config": cfgd, "first_error": str(bad)[:300], "model": m[:100], "stmts": stm})
+            continue
+        ids = []
+        bad_rows = []
+        for a, b in res[-1]["rows"]:
+            av, bv = (int(a[1:]) if a != "N" else None), (int(b[1:]) if b != "N" else None)
+            if av is not None and av < 0 and bv == 3 * av and -av <= k:
+                ids.append(-av)
+            elif av is not None and av > 0 and bv == 3 * av + 1 and av <= n:
+                ids.append(k + av)
+            else:
+                bad_rows.append([a, b])
+        nrows += len(res[-1]["rows"])
+        got = rle(ids)
+        model_ids = unrle(mm.group(2))
+        avals = [(-i if i <= k else i - k) for i in model_ids]
+        want_agg = [len(avals), sum(avals), min(avals), max(avals), len(set(avals)), sum((3 * a if a < 0 else 3 * a + 1) for a in avals)]
+        agg = [int(c[1:]) if c != "N" else None for c in res[-2]["rows"][0]]
+        if bad_rows or got != mm.group(2) or len(ids) != int(mm.group(1)) or agg != want_agg:
+            alt = run_model_big(gmodel, "storage", ["(bulk f %d %d %d %d %d)" % (segsz, cap, k, n, bs)])[0]
+            viol.append({"kind": "table content after a bulk append differs from the chunk-level model (rows lost / duplicated / altered)"
+                                 + (" — equals the model of the `input_offset = copy_count` variant of append_batch" if alt == "count %d rows %s" % (len(ids), got) and not bad_rows else ""),
+                         "config": cfgd, "statement": q, "engine_rows_run_length": got[:400], "model_rows_run_length": mm.group(2)[:400],
+                         "rows_not_of_the_source": bad_rows[:5], "engine_aggregates": agg, "expected_aggregates": want_agg,
+                         "aggregate_columns": ["count", "sum(a)", "min(a)", "max(a)", "count distinct a", "sum(b)"], "stmts": stm[:-1]})
+        elif len(samples) < 2:
+            samples.append({"config": cfgd, "statement": q, "rows": got[:80], "aggregates": agg})
+    return {"violations": viol, "n": len(cases), "rows": nrows, "samples": samples}
+
+
 def run_model_big(exe, sub, lines, timeout=900):
     """like common.run_model, with the stack limit raised (lists of 10^5 rows, extracted non-tail-recursive functions)"""
     import resource
@@ -607,7 +726,9 @@ def run(ctx):
     t2 = time.time()
     hs = stage_histories(ctx, rng, gcat, gmodel)
     t3 = time.time()
-    for v in rp["violations"] + hs["violations"]:
+    bk = stage_bulk(ctx, rng, gcat, gmodel, consts)
+    t4 = time.time()
+    for v in rp["violations"] + hs["violations"] + bk["violations"]:
         out["violations"].append({"what": v.get("kind", "violation"), "replay": v, "no_input": False})
     if proof_broken:
         out["violations"].append({"what": "theorem(s) in %s no longer check" % PROPS,
@@ -634,17 +755,21 @@ def run(ctx):
                          "model/Storage.v atomic steps = the lock regions of concurrent.rs; scc::HashIndex / HashMap operations assumed linearizable",
                          "source scanner for segment size (16) and chunk capacity (2048)"],
         "theorems": obligations,
-        "evaluations": hs["statements"] + rp["n"],
+        "evaluations": hs["statements"] + rp["n"] + bk["n"],
         "distinct_nontrivial": hs["distinct"],
         "rule": "K: every statement of every generated history (1..3 sessions of one engine, partitions 1..8, deterministic scheduler with 5 policies or the "
                 "threaded executor) = one evaluation: outcome class and result (row bag, column names/types, object lists, setting value) equal to the extracted "
                 "Catalog.step_impl; distinct = distinct (statement kind, model outcome). R: each replay case = one evaluation: row counts of the engine under a "
                 "named schedule equal to the extracted Storage model (table scan with the captured segment limit) run at the source's constants; "
-                "a deviation is reported with the schedule and with the prediction of Storage.Old.self_insert",
-        "samples": hs["samples"][:2] + rp["samples"][:2],
+                "a deviation is reported with the schedule and with the prediction of Storage.Old.self_insert. "
+                "B: each bulk case (batch_size in {1,100,2048,2049,4096,4097,8192} x source in {generate_series, table, CTAS, join} x rows already in the table "
+                "with k mod 2048 in {0,1,2047}) = one evaluation: count, sum, min, max, count distinct, sum of the second column and the exact sorted rows "
+                "equal to the extracted chunk-level model Storage.bulk",
+        "samples": hs["samples"][:2] + rp["samples"][:2] + bk["samples"][:1],
+        "bulk_cases": bk["n"], "bulk_rows_compared": bk["rows"],
         "histories": hs["cases"], "history_statements": hs["statements"], "history_probes": hs["probes"], "replay_cases": rp["n"],
         "source_constants": consts, "exhaustive": False,
-        "stage_seconds": {"build+proofs": round(t1 - t0, 1), "replay": round(t2 - t1, 1), "histories": round(t3 - t2, 1)},
+        "stage_seconds": {"build+proofs": round(t1 - t0, 1), "replay": round(t2 - t1, 1), "histories": round(t3 - t2, 1), "bulk": round(t4 - t3, 1)},
     }
     out["assumptions"] = ["rows are compared as bags of rendered cells; tables in the histories have the column types int / (int, text) only",
                           "views in the histories are `SELECT * FROM <ref>` (identity over a table or another view)",
